@@ -318,9 +318,9 @@ def run_purity(case):
 def strat_points(tier):
     from .c05 import _scene
     opts = []
-    for kd in ["sphere", "layered", "cluster_mie", "cluster_ms", "spheroid", "cylinder"]:
+    for kd in ["sphere", "layered", "cluster_mie", "cluster_ms", "spheroid", "cylinder", "lens", "mielens"]:
         pol = st.just([1.0, 0.0]) if kd in ("spheroid", "cylinder") else None
-        opts.append(st.fixed_dictionaries({"o": gen.optics(True, pol=pol), "det": gen.point_detector(8), "sc": _scene(kd)}))
+        opts.append(st.fixed_dictionaries({"o": gen.optics(True, pol=pol), "det": gen.point_detector(8 if kd not in ("lens", "mielens") else 4), "sc": _scene(kd)}))
     return st.tuples(st.one_of(*opts), st.integers(0, 2 ** 31 - 1), st.sampled_from(["holo", "field", "intensity", "scat_matrix"])).map(
         lambda t: dict(t[0], seed=t[1], what=t[2]))
 
@@ -348,6 +348,22 @@ def run_points(case):
         if what == "intensity":
             return calc_intensity(d, s, theory=th, **kw).values
         return calc_scat_matrix(d, s, o["nm"], o["wl"], theory=th).transpose("point", "E_out", "E_in").values
+    tkind = sc["th"]["t"]
+    if tkind in ("lens", "mielens"):
+        # keep the lens integrals cheap: points within a few wavelengths of the axis
+        P = np.column_stack([P[:, 0] * 0.2, P[:, 1] * 0.2, P[:, 2]])
+        if what == "scat_matrix":
+            what = "field"
+    zvar = len(set(P[:, 2].tolist())) > 1
+    if tkind == "mielens" and zvar:
+        # documented: MieLens refuses detector points that do not share one z (ValueError) - it must not answer silently
+        try:
+            calc(P)
+        except ValueError as e:
+            if "fixed" in str(e):
+                return Outcome(None, False, labels + ["mielens_refuses_varying_z"], skipped=True)
+            raise
+        return Outcome(failure("mielens_accepts_varying_z", "MieLens returned values for points with different z although it assumes one z"), True, labels)
     try:
         full = calc(P)
         rng = np.random.RandomState(case["seed"] % (2 ** 31))
@@ -358,6 +374,17 @@ def run_points(case):
         if type(e).__name__ == "MultisphereFailure":
             return Outcome(None, False, labels + ["MultisphereFailure"], skipped=True)
         raise
+    if tkind in ("lens", "mielens"):
+        # quadrature sums over arrays of different length are not bit-identical; MieLens interpolates per call
+        scale = max(np.abs(full).max(), 1e-300)
+        rtol = 1e-6 if tkind == "mielens" else 1e-11
+        e1 = np.abs(shuffled - full[perm]).max() / scale
+        e2 = np.abs(singles - full).max() / scale
+        if e1 > rtol:
+            return Outcome(failure("depends_on_list_order", "%s values change by %.3g (rel) when the same points are listed in another order" % (tkind, e1), what=what), True, labels)
+        if e2 > rtol:
+            return Outcome(failure("depends_on_other_points", "%s: a point evaluated alone differs by %.3g (rel) from its value inside the list" % (tkind, e2), what=what), True, labels)
+        return Outcome(None, len(P) >= 2 and zvar, labels)
     if not np.array_equal(shuffled, full[perm]):
         return Outcome(failure("depends_on_list_order", "values change by %.3g when the same points are listed in another order" % np.abs(shuffled - full[perm]).max(),
                                what=what), True, labels)
